@@ -56,5 +56,8 @@ claim("C16", "proof",
       "DESIGN.md §9 C16",
       "Lean kernel; critical sections under listM as atomic steps (trusted); channel, workers, context cancellation not modelled",
       "Lean 4 proof (invariant + conservation over a small-step model of the deferred-send protocol) + skeleton tie + orchestrated/randomised runs of the real pool")
-for p in ["C04","C05","C10","C11","C15","C17"]:
+claim("C05", "proof",
+      "PARTIAL. On the specification: C05_reopen_spec / C05_reopen_reads (a reopen keeps the committed history and every autocommit read, drops open transactions), C05_reopen_inv, C05_later_write_wins (a write after a reopen gets a stamp above everything committed: it wins now and after every later reopen), also in a fresh process. On the concrete model of Load: C05_counter_covers (the process counter ends at or above every surviving sequence number whatever was opened before) and C05_cas_witness for the pin's counter rule. Not yet a theorem: that the surviving record per key is the newest committed version (record invariant through all operations); decided by the correspondence run over 1-3 databases with Close/Open and real process restarts (fresh OS processes), impl = model = spec.",
+      "DESIGN.md §9 C05", SEQ_NOTE + "; multi-database process model in the driver (one global counter threaded through all databases)", SEQ_TECH + "; partial")
+for p in ["C04","C10","C11","C15","C17"]:
     na(p, PENDING)
